@@ -264,7 +264,14 @@ fn gen_frame(r: &mut Rng, tr: &str, dir: Dir) -> Vec<u8> {
         };
         return tcp_frame(r.u16(), r.u8(), &p);
     }
-    let p = gen_frame_pdu(r, dir);
+    let mut p = gen_frame_pdu(r, dir);
+    if r.below(16) == 0 && p.len() >= 3 && p[0] < 0x80 {
+        // leading bytes that coincide: slave / unit id == function code == the byte after it
+        let fc = p[0];
+        let ok = match (dir, fc) { (Dir::Req, 1..=6) | (Dir::Req, 0x0F) | (Dir::Req, 0x10) | (Dir::Req, 0x17) => true, (Dir::Rsp, 5) | (Dir::Rsp, 6) | (Dir::Rsp, 0x0F) | (Dir::Rsp, 0x10) => true, _ => false };
+        if ok { p[1] = fc; }
+        return if tr == "rtu" { rtu_frame(fc, &p) } else { tcp_frame((fc as u16) << 8 | fc as u16, fc, &p) };
+    }
     if tr == "rtu" {
         rtu_frame(r.u8(), &p)
     } else {
@@ -418,7 +425,14 @@ pub fn generate(prop: &str, tier: &str, seed: u64, out: &mut impl Write) {
             for i in 0..n {
                 let id = (i % 256) as u8; // every slave / unit id
                 let tid = if i < 8 { [0u16, 1, 0xFF, 0x100, 0xFFFF, 0xFF00, 0x00FF, 0x8000][i] } else { r.u16() };
-                let (m, s) = gen_req(r, false);
+                let (mut m, mut s) = gen_req(r, false);
+                let mut id = id;
+                if i % 13 == 4 {
+                    // slave / unit id == function code == address high byte
+                    let (fc, n) = *r.pick(&[(1u8, "RC"), (2, "RDI"), (3, "RHR"), (4, "RIR"), (6, "WSR")]);
+                    let a = (fc as u16) << 8 | r.u8() as u16; let q = r.addr();
+                    m = ReqM::Simple(fc, a, q); s = format!("{n} {a} {q}"); id = fc;
+                }
                 let pdu = req_bytes(&m);
                 let ovh = if rtu { 3 } else { 7 };
                 let l = pdu.len() + ovh + *r.pick(&[0usize, 0, 1, 2]);
@@ -797,6 +811,13 @@ pub fn generate(prop: &str, tier: &str, seed: u64, out: &mut impl Write) {
                     }
                 }
             }
+            // quantities whose doubling wraps in 16 bits (2*q mod 65536 equals the byte count)
+            for k in [0u16, 1, 2, 0x7F] { for fc in [0x10u8, 0x17] {
+                let q = 0x8000u16 + k; let bc = (2 * k) as u8;
+                let mut p = if fc == 0x10 { vec![0x10, 0, 1, (q >> 8) as u8, q as u8, bc] } else { vec![0x17, 0, 1, 0, 2, 0, 3, (q >> 8) as u8, q as u8, bc] };
+                p.extend(r.bytes(bc as usize));
+                emit("req", &p, out, r);
+            } }
             for q in [0u16, 1, 2, 127, 128, 0xFFFF] { for bc in [0u8, 1, 2, 4, 254, 255] {
                 let mut p = vec![0x17, 0, 1, 0, 2, 0, 3, (q >> 8) as u8, q as u8, bc]; p.extend(r.rbytes(bc as usize, 3));
                 emit("req", &p, out, r);
